@@ -69,7 +69,32 @@ def load_contracts():
     return tomllib.load(open(p, 'rb'))
 
 
-def prepare(repo: str, scratch: str, only_files=None):
+HARNESS_RE = re.compile(r'((?:[ \t]*(?://[^\n]*|#\[[^\n]*\])\n)*)[ \t]*(?:pub(?:\([a-z]+\))?\s+)?fn\s+(\w+)\s*\(\s*\)')
+
+
+def filter_harnesses(text: str, keep):
+    """Drop every #[kani::proof*] fn whose name is not in `keep` (helpers and kept harnesses stay).
+    Compiling ~150 harnesses costs Kani ~1 s each, so a check only compiles the ones it runs."""
+    if keep is None:
+        return text
+    msk = rs.mask(text)
+    cuts = []
+    for m in HARNESS_RE.finditer(text):
+        attrs = m.group(1)
+        if 'kani::proof' not in attrs or m.group(2) in keep:
+            continue
+        b = msk.find('{', m.end())
+        e = rs.match_close(msk, b) + 1
+        cuts.append((m.start(), e))
+    out, pos = [], 0
+    for a, b in cuts:
+        out.append(text[pos:a])
+        pos = b
+    out.append(text[pos:])
+    return ''.join(out)
+
+
+def prepare(repo: str, scratch: str, only_files=None, keep=None):
     os.makedirs(scratch, exist_ok=True)
     for f in ('Cargo.toml', 'Cargo.lock'):
         shutil.copy(os.path.join(repo, f), os.path.join(scratch, f))
@@ -135,7 +160,7 @@ def prepare(repo: str, scratch: str, only_files=None):
         # 4. harness module
         hpath = os.path.join(KDIR, rel[4:-3].replace('/', '__') + '.rs')
         if os.path.exists(hpath):
-            h = open(hpath, encoding='utf-8').read()
+            h = filter_harnesses(open(hpath, encoding='utf-8').read(), keep)
             if not text.endswith('\n'):
                 text += '\n'
                 tail_fix = True
